@@ -55,6 +55,7 @@ func checkC07(c *Ctx) {
 	c07ByVersion(c)
 	c07MustDecrypt(c)
 	c07WrapperNonce(c)
+	c07PadScan(c)
 	hashFed(c, "G-HASH-fed", []string{"gmtls"})
 	if n := completeCopies(c, "G-COPY-complete", "gmtls", func(f *ssa.Function) bool { return f.Name() == "marshal" || f.Name() == "unmarshal" }); n < 10 {
 		c.Undecided("G-COPY-complete", "gmtls", "copies into fresh buffers", fmt.Sprintf("only %d found", n), token.NoPos)
@@ -82,6 +83,16 @@ func c07Reject(c *Ctx, dec *ssa.Function) {
 		ok, w := noSuccessWithout(dec, op.Block(), spec, cut)
 		c.Check(ok && len(atoms) > 0, rule, fname(dec), fmt.Sprintf("AEAD Open #%d result cannot be bypassed", i+1), "", "after Open a successful return at "+c.P.pos(lastPos(w))+" is reachable without testing its error", op.Pos())
 		// failing returns carry alertBadRecordMAC
+	}
+	// CBC: CryptBlocks panics on input that is not a whole number of blocks — a record of such a length (chosen by the
+	// peer) must have been rejected before: ASSUME len(payload) % blockSize != 0; the call must be unreachable
+	for i, cb := range invokesOf(dec, "CryptBlocks") {
+		ci := newCondIndex(dec, allParamNames(dec))
+		reachable := true
+		ci.withAssumptions([]assumption{{`re:ne\(rem\(len\(.+\),.+\),0x0\)`, true}}, func() {
+			reachable = reach([]*ssa.BasicBlock{dec.Blocks[0]}, deadEdges(dec))[cb.Block()]
+		})
+		c.Check(!reachable, rule, fname(dec), fmt.Sprintf("CryptBlocks #%d only sees whole blocks", i+1), "", "assuming the record length is not a multiple of the block size, CryptBlocks is still reached: it panics (\"input not full blocks\") instead of the record being rejected with bad_record_mac", cb.Pos())
 	}
 	// MAC comparison
 	var cmpAtoms, padAtoms []Atom
@@ -483,6 +494,12 @@ func c07IV(c *Ctx) {
 			if sl, ok := call.Call.Args[1].(*ssa.Slice); ok {
 				if fa, ok := sl.X.(*ssa.FieldAddr); ok && fieldName(fa.X.Type(), fa.Field) == "seq" {
 					fills = append(fills, call)
+					// ... the WRITE half connection's counter: the same one encrypt uses for the MAC / AAD of this record
+					half := ""
+					if hfa, ok := fa.X.(*ssa.FieldAddr); ok {
+						half = fieldName(hfa.X.Type(), hfa.Field)
+					}
+					c.Check(half == "out", rule, fname(f), "the AEAD explicit nonce is the write sequence number (c.out.seq)", "", "the explicit nonce is copied from c."+half+".seq: it does not advance with the records written, so consecutive records of one direction are sealed under the same nonce", call.Pos())
 				}
 			}
 		}
@@ -1089,4 +1106,60 @@ func loopBefore(w, at *ssa.BasicBlock) bool {
 		}
 	}
 	return false
+}
+
+// c07PadScan: TLS CBC padding is up to 255 bytes plus the length byte. extractPadding's scan over the tail of the
+// record must cover min(256, len(payload)) bytes — with a smaller constant the farthest byte of a maximal padding is
+// never compared, and a record with that byte altered is accepted.
+func c07PadScan(c *Ctx) {
+	rule := "K-C07-padscan"
+	f := c.Fn("gmtls", "extractPadding")
+	if f == nil {
+		c.Undecided(rule, "gmtls.extractPadding", "padding scan length", "function not found", token.NoPos)
+		return
+	}
+	var bound ssa.Value
+	for _, h := range loopHeaders(f) {
+		ifi, ok := lastIf(h)
+		if !ok {
+			continue
+		}
+		if bo, ok := ifi.Cond.(*ssa.BinOp); ok && bo.Op == token.LSS {
+			if _, isPhi := bo.X.(*ssa.Phi); isPhi {
+				bound = bo.Y
+			}
+		}
+	}
+	if bound == nil {
+		c.Undecided(rule, fname(f), "padding scan length", "no loop `for i < bound` found", f.Pos())
+		return
+	}
+	isLenPayload := func(v ssa.Value) bool {
+		return isLenOf(v, func(x ssa.Value) bool { return x == ssa.Value(f.Params[0]) })
+	}
+	var k int64 = -1
+	shape := false
+	switch x := bound.(type) {
+	case *ssa.Phi:
+		if len(x.Edges) == 2 {
+			for i := 0; i < 2; i++ {
+				if kk, isK := constInt(x.Edges[i]); isK && isLenPayload(x.Edges[1-i]) {
+					k, shape = kk, true
+				}
+			}
+		}
+	case *ssa.Call:
+		if bi, ok := x.Call.Value.(*ssa.Builtin); ok && bi.Name() == "min" && len(x.Call.Args) == 2 {
+			for i := 0; i < 2; i++ {
+				if kk, isK := constInt(x.Call.Args[i]); isK && isLenPayload(x.Call.Args[1-i]) {
+					k, shape = kk, true
+				}
+			}
+		}
+	}
+	if !shape {
+		c.Undecided(rule, fname(f), "padding scan length", "the scan bound is not min(constant, len(payload)) in a recognised form", bound.Pos())
+		return
+	}
+	c.Check(k >= 256, rule, fname(f), "the scan covers min(256, len(payload)) bytes", fmt.Sprintf("constant %d", k), fmt.Sprintf("the padding scan looks at no more than %d bytes: a padding of 255 bytes plus its length byte is 256 bytes long, so the farthest padding byte is never compared and a record with that byte altered is accepted", k), bound.Pos())
 }
